@@ -74,6 +74,9 @@ mod epoch_nanoseconds;
 #[cfg(feature = "tzdb")]
 pub mod tzdb;
 
+#[cfg(all(temporal_verif, feature = "std", feature = "sys"))]
+pub mod verif_hooks;
+
 #[doc(hidden)]
 pub(crate) mod rounding;
 #[doc(hidden)]
